@@ -35,13 +35,26 @@ type compileOutcome struct {
 	dup      []string
 }
 
+// rootSpelling: how compileOnce spells the root file's path (0 = simplest form).
+var rootSpelling int
+
 func compileOnce(fs *MemFS, rootRel string) (o compileOutcome) {
 	defer func() {
 		if r := recover(); r != nil {
 			o = compileOutcome{panic: fmt.Sprintf("%v\n%s", r, debug.Stack())}
 		}
 	}()
-	m, err := compile.Compile(filepath.Join(memRoot, filepath.FromSlash(rootRel)), compile.Filesystem(fs))
+	// the root file may be named by a path that is not in its simplest form
+	root := filepath.Join(memRoot, filepath.FromSlash(rootRel))
+	switch rootSpelling {
+	case 1:
+		root = memRoot + "/./" + filepath.FromSlash(rootRel)
+	case 2:
+		root = memRoot + "/zz/../" + filepath.FromSlash(rootRel)
+	case 3:
+		root = filepath.FromSlash(rootRel) // relative to the file system's root directory
+	}
+	m, err := compile.Compile(root, compile.Filesystem(fs))
 	if err != nil {
 		return compileOutcome{err: err.Error()}
 	}
@@ -148,7 +161,12 @@ func RunC07(cfg simrt.Config, o world.Opts) *world.Result {
 				permuted = true
 			}
 			fs := render(p)
+			rootSpelling = 0
+			if simrt.Flip("c07.root-spelling", 0.25) {
+				rootSpelling = 1 + ch("c07.root-spelling-kind", 3)
+			}
 			got := compileOnce(fs, p.Files[0].RelPath())
+			rootSpelling = 0
 			desc := fmt.Sprintf("schedule %d (map order %s, definitions permuted=%v)", i, orderNames[mo], permuted)
 			if got.ok {
 				okRuns++
